@@ -54,8 +54,10 @@ _ILLEGAL_XML = re.compile("[^\x09\x0A\x0D\x20-퟿-�\U00010000-\U0010FFFF]")
 
 
 def placeholder(p: str) -> str:
-    """Harmless text of the same token shape (same length, letters and digits only)."""
-    return "".join(c if c.isalnum() and c.isascii() else "x" for c in p)
+    """Harmless twin of the same token shape: only the five HTML-special characters are replaced, everything else
+    (length, punctuation, control characters, characters that are illegal in XML) stays, so that the twin takes the
+    same path through the docstring parsers, the colorizers and the XML-error fallbacks."""
+    return "".join("x" if c in "<>&\"'" else c for c in p)
 
 
 def neutral(p: str) -> str:
@@ -73,10 +75,7 @@ def forms(p: str) -> List[str]:
 
 
 def forms_for(kind: str, p: str) -> List[str]:
-    fs = forms(p)
-    if kind.startswith("xref."):
-        fs += [x for x in forms(nolt(p)) if x not in fs]     # '<' separates label and target in both markups
-    return fs
+    return forms(p)
 
 
 def nolt(p: str) -> str:
@@ -98,6 +97,10 @@ def payload_for(kind: str, p: str) -> str:
     """The payload as planted for this kind (characters the position cannot hold are dropped)."""
     if kind == "modname":
         return fname(p)
+    if kind.startswith("xref."):
+        return nolt(p)              # '<' separates label and target in both markups
+    if kind.startswith("doctest."):
+        return p.replace("'", "").replace('"', "").replace("#", "")     # python tokens of the doctest colorizer
     return p
 
 
@@ -113,7 +116,8 @@ def gen(kind: str, p: str) -> Dict[str, Any]:
         files["zpkg/" + p + ".py"] = ('"""Odd module name."""\nxvar = 1\n"""x doc"""\ndef ffun(): "f doc"\n'
                                       'class Kcls:\n    "first"\nclass Kcls:\n    "second"\n    def meth(self): "m doc"\n')
     elif base == "doc":
-        d = f"Word {p} first. More text.\n\nSecond {p} paragraph."
+        inline = {"epytext": f" Code C{{{p}}} and I{{{p}}} and B{{{p}}}.", "plaintext": ""}.get(fmt, f" Code ``{p}`` and *{p}* and **{p}**.")
+        d = f"Word {p} first. More text.\n\nSecond {p} paragraph.{inline}"
         files["zpkg/amod.py"] = _escape_docstring_source(
             f'{_ds(d, 0)}xvar = 2\n{_ds(d, 0)}class Dcls:\n{_ds(d, 4)}'
             f'    def meth(self, a, b):\n{_ds(d, 8)}def ffun():\n{_ds(d, 4)}')
@@ -122,13 +126,12 @@ def gen(kind: str, p: str) -> Dict[str, Any]:
         files["zpkg/amod.py"] = _escape_docstring_source(
             f'"""\nModule.\n"""\nclass Dcls:\n{_ds(cls, 4)}    def meth(self, a, b):\n{_ds(fn, 8)}')
     elif base == "xref":
-        q = nolt(p)
         if fmt == "epytext":
-            d = (f"See L{{{q} <zpkg.amod.Dcls>}} and L{{{q} <nonexistent.thing>}} and C{{{p}}} "
-                 f"and U{{http://example.org/?q={q}}} and I{{{p}}}.")
+            d = (f"See L{{{p} <zpkg.amod.Dcls>}} and L{{{p} <nonexistent.thing>}} "
+                 f"and U{{http://example.org/?q={p}}} and U{{label{p} <http://example.org/?r={p}>}}.")
         else:
-            d = (f"See `{q} <zpkg.amod.Dcls>` and `{q} <nonexistent.thing>` and `{q}` and ``{p}`` "
-                 f"and `label{q} <http://example.org/?q={q}>`_ and *{p}*.")
+            d = (f"See `{p} <zpkg.amod.Dcls>` and `{p} <nonexistent.thing>` and `{p}` "
+                 f"and `label{p} <http://example.org/?q={p}>`_.")
         files["zpkg/amod.py"] = _escape_docstring_source(
             f'"""\nModule.\n"""\nclass Dcls:\n{_ds(d, 4)}    def meth(self):\n{_ds(d, 8)}')
     elif base == "doctest":
@@ -183,13 +186,13 @@ def _field_docs(fmt: str, p: str) -> Tuple[str, str]:
               f":raises {p}: whatever {p}\n:see: {p}\n:return: x {p}\n:rtype: {p}")
     elif fmt == "google":
         cls = f"Class doc.\n\nAttributes:\n    {p}: ivar doc\n    yvar: y doc {p}\n\nNote:\n    note {p}"
-        fn = (f"Meth doc.\n\nArgs:\n    a ({p}): desc {p}\n    {p}: nonexisting\n\n"
-              f"Raises:\n    {p}: whatever {p}\n\nReturns:\n    {p}: x {p}")
+        fn = (f"Meth doc.\n\nArgs:\n    a (int): desc {p}\n    {p}: nonexisting\n\n"
+              f"Raises:\n    {p}: whatever {p}\n\nReturns:\n    int: x {p}")
     else:
         cls = (f"Class doc.\n\nAttributes\n----------\n{p}\n    ivar doc\nyvar\n    y doc {p}\n\n"
                f"Notes\n-----\nnote {p}")
-        fn = (f"Meth doc.\n\nParameters\n----------\na : {p}\n    desc {p}\n{p}\n    nonexisting\n\n"
-              f"Raises\n------\n{p}\n    whatever {p}\n\nReturns\n-------\n{p}\n    x {p}")
+        fn = (f"Meth doc.\n\nParameters\n----------\na : int\n    desc {p}\n{p}\n    nonexisting\n\n"
+              f"Raises\n------\n{p}\n    whatever {p}\n\nReturns\n-------\nint\n    x {p}")
     return cls, fn
 
 
@@ -339,6 +342,10 @@ def skeleton(root: ET.Element) -> str:
 
     def walk(e: ET.Element, d: int) -> None:
         nonlocal n
+        if _transparent(e):
+            for c in e:
+                walk(c, d)
+            return
         n += 1
         h.update(f"{d}:{e.tag}:{','.join(sorted(e.attrib))}:{e.get('class', '')}\n".encode())
         for c in e:
@@ -347,10 +354,20 @@ def skeleton(root: ET.Element) -> str:
     return f"{n}:{h.hexdigest()[:16]}"
 
 
+def _transparent(e: ET.Element) -> bool:
+    """docutils visit_literal wraps the words of a literal that contain punctuation in <span class="pre"> to keep
+    them on one line: presentation chosen from the characters, not markup made from them."""
+    return e.tag == "span" and e.get("class") == "pre" and len(e.attrib) == 1
+
+
 def skeleton_list(root: ET.Element) -> List[str]:
     out: List[str] = []
 
     def walk(e: ET.Element, d: int) -> None:
+        if _transparent(e):
+            for c in e:
+                walk(c, d)
+            return
         out.append(f"{'.' * min(d, 30)}{e.tag}[{','.join(sorted(e.attrib))}]{{{e.get('class', '')}}}")
         for c in e:
             walk(c, d + 1)
@@ -639,10 +656,9 @@ def run(ctx: Ctx) -> int:
         raise MachineryError(f"Escape.tla enumerates source kinds the harness cannot plant: {unknown}")
     kinds = [k for k in KINDS if k in model]
     plan: List[Tuple[str, str, str, bool]] = [(k, v, p, True) for k in kinds for v, p in VARIANTS.items()]
-    if not ctx.quick:
-        for k in kinds:
-            for i in range(6):
-                plan.append((k, f"random{i}", random_payload(rng), False))
+    for k in kinds:
+        for i in range(2 if ctx.quick else 40):
+            plan.append((k, f"random{i}", random_payload(rng), False))
     jobs: List[Dict[str, Any]] = []
     for k, v, p, _ in plan:
         jobs += list(jobs_for(ctx.scratch, k, v, p))
@@ -652,16 +668,34 @@ def run(ctx: Ctx) -> int:
     finally:
         pool.close()
         pool.join()
-    observed_records: List[Dict[str, Any]] = []
-    twin: List[Dict[str, Any]] = []
+    observed_records: List[Any] = []
+    twin: List[Any] = []
     pair_seen: Dict[Tuple[str, str, str, bool], Set[int]] = {}
     not_intact = 0
     for i, (k, v, p, modelled) in enumerate(plan):
         can, pla = results[2 * i], results[2 * i + 1]
         ctx.traces += 1
-        for x in (can, pla):
-            if x["rc"] == "exception" or not x["pages"] and not x["malformed"]:
-                raise MachineryError(f"pydoctor did not produce pages for {k}/{v} ({x['role']}): rc={x['rc']} {x['err']} {x['log'][-300:]}")
+        if pla["rc"] == "exception" or (not pla["pages"] and not pla["malformed"]):
+            # does a twin made of letters only complete?  then the payload's characters abort the run
+            plain = run_pydoctor({**jobs[2 * i + 1], "payload": "".join(c if c.isalnum() and c.isascii() else "x" for c in pla["payload"])})
+            if plain["rc"] == "exception" or not plain["pages"]:
+                raise MachineryError(f"pydoctor did not produce pages for the placeholder twin of {k}/{v}: rc={pla['rc']} {pla['err']} {pla['log'][-300:]}")
+            ctx.violation({"invariant": "RunCompletes", "kind": k, "variant": v, "payload": pla["payload"], "placeholder": plain["payload"],
+                           "observed": {"rc": pla["rc"], "error": pla["err"][:300], "events": pla["events"]},
+                           "key": f"RunCompletes:{k}:{v if modelled else 'random'}:twin"})
+            if modelled:
+                twin.append(None)
+                observed_records.append(None)
+            continue
+        if can["rc"] == "exception" or (not can["pages"] and not can["malformed"]):
+            # the twin that differs only in the five HTML-special characters completes, the canary aborts the run
+            ctx.violation({"invariant": "RunCompletes", "kind": k, "variant": v, "payload": can["payload"], "placeholder": pla["payload"],
+                           "observed": {"rc": can["rc"], "error": can["err"][:300], "events": can["events"]},
+                           "key": f"RunCompletes:{k}:{v if modelled else 'random'}"})
+            if modelled:
+                twin.append(None)
+                observed_records.append(None)
+            continue
         not_intact += sum(1 for o in can["occ"] if o["level"] == -1)
         for b in judge_pair(can, pla, strict_appears=modelled):
             if b["invariant"] == "SkeletonEqual":
@@ -696,6 +730,9 @@ def run(ctx: Ctx) -> int:
         ctx.extra["action_coverage"] = r.coverage
 
     # ---- code -> spec: TLC evaluates the invariants on the observed flows and checks them against the model
+    keep = [i for i, o in enumerate(observed_records) if o is not None]
+    observed_records = [observed_records[i] for i in keep]
+    twin = [twin[i] for i in keep]
     f = ctx.scratch / "observed.json"
     f.write_text(json.dumps(observed_records))
     r2 = ctx.tlc("Escape", CFG_FILE, workers=1, env={"C10_OBSERVED": str(f)}, check=True, timeout=600)
@@ -734,7 +771,7 @@ def run(ctx: Ctx) -> int:
     nc["tlc_rejects_corrupted_observation"] = (not r3.printed[0]["sinkLevelOne"]) and (not r3.printed[0]["neverParsedRaw"]) \
         and bool(r3.printed[0]["stepsNotInModel"])
     # a page in which the canary is written raw must be caught by the crawler (skeleton / well-formedness)
-    c, p = jobs_for(ctx.scratch, "strconst", "markup", VARIANTS["markup"])
+    c, p = jobs_for(ctx.scratch, "doc.epytext", "markup", VARIANTS["markup"])
     rc_ = run_pydoctor({**c, "keep": True})
     rp_ = run_pydoctor(p)
     out = Path(c["dir"]) / "out"
@@ -746,7 +783,7 @@ def run(ctx: Ctx) -> int:
             page.write_text(t.replace(esc, VARIANTS["markup"]), encoding="utf8")
             hit += 1
     tampered = crawl(out, forms(VARIANTS["markup"]))
-    tampered.update({"kind": "strconst", "payload": VARIANTS["markup"], "role": "canary"})
+    tampered.update({"kind": "doc.epytext", "payload": VARIANTS["markup"], "role": "canary"})
     verdicts = {b["invariant"] for b in judge_pair(tampered, rp_, True)}
     nc["crawler_catches_raw_canary"] = hit > 0 and bool(verdicts & {"SkeletonEqual", "WellFormed"}) and not judge_pair(rc_, rp_, True)
     import shutil
@@ -775,7 +812,11 @@ def replay(ctx: Ctx, path: str) -> int:
     kind, payload = w["kind"], w["payload"]
     c = {"dir": str(ctx.scratch / "c"), "kind": kind, "variant": w.get("variant", ""), "payload": payload, "role": "canary"}
     p = {"dir": str(ctx.scratch / "p"), "kind": kind, "variant": w.get("variant", ""), "payload": w.get("placeholder") or placeholder(payload), "role": "placeholder"}
-    bad = judge_pair(run_pydoctor(c), run_pydoctor(p), strict_appears=w.get("variant") in VARIANTS)
+    rc_, rp_ = run_pydoctor(c), run_pydoctor(p)
+    if rc_["rc"] == "exception" and rp_["rc"] != "exception":
+        bad = [{"invariant": "RunCompletes"}]
+    else:
+        bad = judge_pair(rc_, rp_, strict_appears=w.get("variant") in VARIANTS)
     names = sorted({b["invariant"] for b in bad})
     print("replay:", "still violated: " + ",".join(names) if bad else "holds now")
     if bad:
